@@ -1185,6 +1185,12 @@ func (env *SpecEnv) evalCall(c *ast.CallExpr) TV {
 			if t == nil {
 				tool("spec: typeis: unknown type %s", exprString(c.Args[1]))
 			}
+			// a value whose static type is an interface with (at least) the asked-for methods has them iff it is not nil
+			if it, isI := under(t).(*types.Interface); isI && v.T != nil && !it.Empty() {
+				if _, srcI := under(v.T).(*types.Interface); srcI && types.Implements(v.T, it) {
+					return TV{Scalar{Neq(iv.Tag, Zero)}, boolT}
+				}
+			}
 			return TV{Scalar{ex.assertOK(env.st, iv, t)}, boolT}
 		case "as":
 			// as(x, T): the value of interface x viewed as concrete T (meaningful under typeis)
